@@ -140,71 +140,57 @@ def r01b(ctx):
     if len(ip) < 5:
         raise Inconclusive("EditDistance.__init__ signature")
     from_seq_p, to_seq_p = ip[3], ip[4]
-    # -- trimming
+    # -- trimming (inline loops or a helper that pairs items while they are equal; locals are seen through)
+    from .. import scans
+    from ..astx import inline_locals
     pre = suf = None
-    def zip_of(it):
-        """(zip call, islice bound or None) for `zip(...)` / `islice(zip(...), K)`."""
-        if isinstance(it, ast.Call) and call_name(it) == "zip":
-            return it, None
-        if isinstance(it, ast.Call) and (call_name(it) or "").rsplit(".", 1)[-1] == "islice" and len(it.args) == 2 \
-                and isinstance(it.args[0], ast.Call) and call_name(it.args[0]) == "zip":
-            return it.args[0], it.args[1]
-        return None, None
-    loops = [n for n in walk_no_nested(init.node) if isinstance(n, ast.For) and zip_of(n.iter)[0] is not None]
+    suf_scan = None
     n_ob = 0
-    for lp in loops:
-        zc, bound = zip_of(lp.iter)
-        appends = [c for c in ast.walk(lp) if isinstance(c, ast.Call) and isinstance(c.func, ast.Attribute)
-                   and c.func.attr == "append" and self_attr(c.func.value)]
-        if not appends:
-            continue
-        a = appends[0]
-        lst = self_attr(a.func.value)
-        tv = [x.id for x in lp.target.elts] if isinstance(lp.target, ast.Tuple) else []
-        facts = [(ast.unparse(t), pol) for t, pol in flatten_conditions(dominating_conditions(a))]
-        guarded = len(tv) == 2 and any(pol and t.replace(" ", "") in (f"{tv[0]}=={tv[1]}", f"{tv[1]}=={tv[0]}") for t, pol in facts)
-        stops = any(isinstance(s, ast.Break) for s in ast.walk(lp))
-        rev = all(isinstance(x, ast.Call) and call_name(x) == "reversed" for x in zc.args)
+    for sc in scans.equal_pair_scans(m, q, init):
+        lst = sc["attr"]
         n_ob += 1
-        if guarded and stops:
-            ctx.proved("R01b", f, "EditDistance.__init__", lp, f"trim {lst}",
-                       f"pairs enter self.{lst} only under `{tv[0]} == {tv[1]}` and the scan stops at the first difference")
+        if sc["guarded"] and sc["stops"]:
+            ctx.proved("R01b", f, "EditDistance.__init__", sc["node"], f"trim {lst}",
+                       f"pairs enter self.{lst} only when equal and the scan stops at the first difference ({sc['via']})")
         else:
-            ctx.violation("R01b", f, "EditDistance.__init__", lp, f"trim {lst}",
+            ctx.violation("R01b", f, "EditDistance.__init__", sc["node"], f"trim {lst}",
                           f"self.{lst} receives pairs that are not established equal (or the scan does not stop at the "
                           f"first unequal pair): trimmed elements are later reported as zero-cost matches")
+        rev = all(isinstance(x, ast.Call) and call_name(x) == "reversed" for x in sc["args"])
         if rev:
             suf = lst
-            suf_loop = (lp, zc, bound)
+            suf_scan = sc
         else:
             pre = lst
-            if bound is not None:
-                ctx.violation("R01b", f, "EditDistance.__init__", lp, f"trim {lst} bounded",
-                              f"the shared-prefix scan is cut off by `{norm(bound, 40)}`")
+            if sc["bound"] is not None:
+                ctx.violation("R01b", f, "EditDistance.__init__", sc["node"], f"trim {lst} bounded",
+                              f"the shared-prefix scan is cut off by `{norm(sc['bound'], 40)}`")
     if pre and suf:
         # the suffix scan must stay clear of the prefix on BOTH sides, otherwise an element is trimmed twice
-        lp, zc, bound = suf_loop
+        node, bound = suf_scan["node"], suf_scan["bound"]
         n_ob += 1
         srcs = []
         clear = True
-        for x in zc.args:
+        for x in suf_scan["args"]:
             inner = x.args[0] if x.args else None
             if isinstance(inner, ast.Subscript) and isinstance(inner.slice, ast.Slice) and inner.slice.upper is None \
-                    and inner.slice.lower is not None and ast.unparse(inner.slice.lower).replace(" ", "") == f"len(self.{pre})":
+                    and inner.slice.lower is not None and \
+                    ast.unparse(inline_locals(init.node, inner.slice.lower)).replace(" ", "") == f"len(self.{pre})":
                 srcs.append(dotted(inner.value))
             else:
                 srcs.append(dotted(inner))
                 clear = False
         if not clear and bound is not None:
-            b = ast.unparse(bound).replace(" ", "")
+            b = ast.unparse(inline_locals(init.node, bound)).replace(" ", "")
             fs, ts = from_seq_p, to_seq_p
             clear = b in (f"min(len({fs}),len({ts}))-len(self.{pre})", f"min(len({ts}),len({fs}))-len(self.{pre})")
+        shown = node.iter if isinstance(node, ast.For) else node.value
         if clear and sorted(srcs) == sorted([from_seq_p, to_seq_p]):
-            ctx.proved("R01b", f, "EditDistance.__init__", lp, "suffix scan clear of the prefix",
+            ctx.proved("R01b", f, "EditDistance.__init__", node, "suffix scan clear of the prefix",
                        f"the suffix scan covers only what follows the shared prefix in both sequences")
         else:
-            ctx.violation("R01b", f, "EditDistance.__init__", lp, "suffix scan clear of the prefix",
-                          f"the shared-suffix scan `{norm(lp.iter, 90)}` is not confined to the part of BOTH sequences after the "
+            ctx.violation("R01b", f, "EditDistance.__init__", node, "suffix scan clear of the prefix",
+                          f"the shared-suffix scan `{norm(shown, 90)}` is not confined to the part of BOTH sequences after the "
                           f"shared prefix: when the shorter sequence is a prefix-and-suffix of the longer one (one element "
                           f"dropped from a run of equal neighbours) the suffix overlaps the prefix, an element is trimmed "
                           f"twice and the remaining difference is lost (both documents render as identical)")
@@ -218,8 +204,8 @@ def r01b(ctx):
         if len(st) == 1 and isinstance(st[0].value, ast.Subscript) and isinstance(st[0].value.slice, ast.Slice):
             sl = st[0].value
             try:
-                lo = symslice.lin(sl.slice.lower) if sl.slice.lower is not None else symslice.Lin()
-                hi = symslice.lin(sl.slice.upper) if sl.slice.upper is not None else None
+                lo = symslice.lin(inline_locals(init.node, sl.slice.lower)) if sl.slice.lower is not None else symslice.Lin()
+                hi = symslice.lin(inline_locals(init.node, sl.slice.upper)) if sl.slice.upper is not None else None
                 good = dotted(sl.value) == src and lo == symslice.Lin({f"self.{pre}": 1}) and \
                     hi == symslice.Lin({src: 1}) - symslice.Lin({f"self.{suf}": 1})
             except symslice.NonLinear:
